@@ -77,6 +77,40 @@ LONG = [0.30000000000000004, 1 / 3, 6.944304344339204e-05, 1.2345678901234567e-0
 STRS = ["NuSpaceSim", "x", "two words", "it's", "quote\"d", "a=b /c", "  lead", "UPPER lower", "0123456789012345", "#!@$%^&*()[]{}"]
 
 
+KF_STR = "fits-header:string-card-grammar"
+HOSTILE_STRS = ["a'/b", "x' / y", "'/", "'' /", "it's a/b", "O'Neil / run 3", "x' y", "end&", "a'' b", "q'", "run 7 (Ted's) /tmp/out", "Ted's'/x",
+                "a long title that does not fit on one 80-column card and therefore needs CONTINUE cards in the header",
+                "a long title that does not fit on one 80-column card, needs CONTINUE cards and ends with an ampersand &",
+                "long, with a quote' / slash pair somewhere in the middle of a text that needs more than one card to be stored"]
+ALPHABETS = ["abcdefgh'/ &", "abc def", "abc'", "ab/ ", "ab&", "abcdefghijklmnopqrstuvwxyz0123456789 _-.,:;()[]{}<>=+*#@!?%$^~|\\\"`'/&"]
+
+
+def hostile_string(rng, i):
+    if i < len(HOSTILE_STRS):
+        return HOSTILE_STRS[i]
+    L = int(rng.choice([1, 2, 5, 12, 30, 50, 60, 66, 67, 68, 69, 70, 75, 100, 140]))
+    al = ALPHABETS[int(rng.integers(0, len(ALPHABETS)))]
+    s = "".join(al[int(j)] for j in rng.integers(0, len(al), L)).strip()
+    return s or "x"
+
+
+def string_card_rule(keyword_as_written, s):
+    """astropy's card grammar for a string value (observed, see DESIGN D27): returns
+    (mechanism or None, exact prediction or None). A quote followed by optional blanks and a
+    slash ends the value on read-back; a value that needs CONTINUE cards loses a trailing '&'."""
+    import re
+
+    q = s.replace("'", "''")
+    img = f"{keyword_as_written} = '{q}'" if keyword_as_written.upper().startswith("HIERARCH ") else f"{keyword_as_written:8s}= '{q}'"
+    long = len(img) > 80
+    m = re.search(r"'(?= */)", s)
+    if m:
+        return "quote-slash", (None if long else s[: m.end()])
+    if long and s.endswith("&"):
+        return "continue-ampersand", None
+    return None, s
+
+
 def gen_config(rng, i, longf):
     from nuspacesim.config import NssConfig, Simulation
 
@@ -197,6 +231,7 @@ def judge_table(ctx, tab, cfg, path, label, rng):
         hdr = hd[1].header
         hkeys = {k.upper(): hdr[k] for k in hdr.keys() if k}
     d10 = set()
+    dstr = set()
     for k, v in meta.items():
         kw = (k[9:] if k.upper().startswith("HIERARCH ") else k).upper()
         ctx.count("header")
@@ -225,7 +260,12 @@ def judge_table(ctx, tab, cfg, path, label, rng):
                 ctx.violation("header", f"{label}: header value {kw} = None is read back as {r!r}", dict(wit, keyword=kw))
         else:
             if not (isinstance(r, str) and r == str(v)):
-                ctx.violation("header", f"{label}: header value {kw} = {v!r} is read back as {r!r}", dict(wit, keyword=kw))
+                mech, pred_s = string_card_rule(k, str(v))
+                if isinstance(r, str) and mech and (pred_s is None or r == pred_s):
+                    dstr.add(kw)
+                    ctx.violation(KF_STR, f"{label}: string {kw} = {v!r} is read back as {r!r} ({mech})", dict(wit, keyword=kw, mode=mech))
+                else:
+                    ctx.violation("header", f"{label}: header value {kw} = {v!r} is read back as {r!r}", dict(wit, keyword=kw))
     if cfg is None:
         return
     # ---- completeness of the flattened configuration
@@ -246,7 +286,7 @@ def judge_table(ctx, tab, cfg, path, label, rng):
         elif isinstance(v, (int, np.integer)):
             okv = isinstance(r, (int, np.integer)) and not isinstance(r, bool) and int(r) == v
         else:
-            okv = isinstance(r, str) and r == str(v)
+            okv = isinstance(r, str) and (r == str(v) or key.upper() in dstr)  # dstr: reported above as the open string finding
         if not okv:
             ctx.violation("complete", f"{label}: the file's header says {key!r} = {r!r} but the configuration that produced the table has {v!r}", dict(wit, keyword=key))
             continue
@@ -325,7 +365,9 @@ def judge_table(ctx, tab, cfg, path, label, rng):
         if same:
             continue
         key = "CONFIG " + " ".join(parts).upper()
-        if key in d10:
+        if key in dstr and b == hkeys.get(key):
+            ctx.violation(KF_STR, f"{label}: reconstructed {'.'.join(parts)} = {b!r} differs from the original {a!r} because the header string was cut on read-back", dict(wit, keyword=key, mode="reconstructed-from-cut-string"))
+        elif key in d10:
             ctx.violation(KF, f"{label}: reconstructed {'.'.join(parts)} = {b!r} differs from the original {a!r} because the header float was cut", dict(wit, keyword=key, mode="reconstructed-from-cut-value"))
         else:
             ctx.violation("reconstruct", f"{label}: config_from_fits gives {'.'.join(parts)} = {b!r}, the run used {a!r}", dict(wit, field=".".join(parts)))
@@ -405,6 +447,23 @@ def run(ctx):
             ctx.distinct.add(("syn", repr(cfg.model_dump())[:3000], m))
             if i < 2:
                 ctx.sample({"table": "synthetic", "config": cfg.model_dump(), "rows": m, "columns": tab.colnames})
+        # hostile ASCII strings in title / detector name (single-card and CONTINUE-card lengths)
+        for i in range(ctx.pick(150, 3000)):
+            cfg = NssConfig()
+            cfg.title = hostile_string(rng, i)
+            cfg.detector.name = hostile_string(rng, i + 7 if i + 7 < len(HOSTILE_STRS) else 10**6)
+            if i % 2:
+                cfg.simulation.spectrum = _S.PowerSpectrum(index=2.0, lower_bound=7.0, upper_bound=11.0)
+            try:
+                cfg = NssConfig(**cfg.model_dump())
+            except Exception:
+                ctx.count("generated-invalid")
+                continue
+            tab = results_table.init(cfg)
+            tab["beta_rad"] = np.arange(3.0)
+            ctx.count("hostile-strings")
+            ctx.distinct.add(("hs", cfg.title, cfg.detector.name))
+            judge_table(ctx, tab, cfg, os.path.join(work, "t.fits"), f"title {cfg.title!r}, detector name {cfg.detector.name!r}", rng)
         # a configuration without an ionosphere block (Optional; the radio stage accepts None)
         from nuspacesim.config import Simulation as _S2
 
@@ -543,7 +602,7 @@ def run(ctx):
             ctx.distinct.add(("cli", tuple(argv), os.path.basename(out)))
     finally:
         shutil.rmtree(work, ignore_errors=True)
-    for m in ("none-section", "empty-runs", "numpy-scalars", "columns", "header", "complete", "reconstruct", "real-runs", "cli-run"):
+    for m in ("none-section", "hostile-strings", "empty-runs", "numpy-scalars", "columns", "header", "complete", "reconstruct", "real-runs", "cli-run"):
         ctx.require(m)
     return ctx.finish(
         rule="tables = results_table.init(config) + synthetic columns of every stored dtype (float64, float32, int64, 2-D EFields, Time) for seeded configurations (ASCII strings, finite numbers, both spectrum types, all cloud variants, lat != lon), one third with 17-significant-digit floats and two thirds with short-text floats (for which everything must be exact), plus tables returned by real small compute() runs in both modes; a case is a distinct (configuration, table)",
